@@ -104,7 +104,9 @@ def run(ctx):
                 ctx.violation("fault_point", {"mode": "evalprog", "program": text_, "sexp": s, "fault": {"callback_invocation": k, "kind": kind},
                                               "observed": o, "expected": bad})
     labels = ["fault@%d/%s :: %s" % (k, kind, text_[:400]) for (s, text_, k, kind) in meta]
-    found += C.compare_streams(ctx, "evalprog", labels, mout, iout, nontrivial=lambda impl, line: True, bucket=lambda line: line.split(" ")[0].split("/")[-1] if line.startswith("fault@") else "x")
+    def notags(x):
+        return "\t".join(" ".join(w for w in part.split(" ") if not w.startswith("tags=")) for part in x.split("\t"))
+    found += C.compare_streams(ctx, "evalprog", labels, [notags(m) for m in mout], iout, nontrivial=lambda impl, line: True, bucket=lambda line: line.split(" ")[0].split("/")[-1] if line.startswith("fault@") else "x")
     ctx.cov["rule"] = ("%d generated programs (plus corpus), each run once without faults and once per (callback invocation <= %d points x 6 exception kinds); "
                        "distinct = distinct (program, fault) pairs; every run is non-trivial (the engine state is inspected)" % (nprog, maxpts))
     ctx.sample({"program": src[0][:300], "fault": "none"})
